@@ -158,4 +158,23 @@ theorem uniqNames_nodup_append (hinj : SuffixInj) (taken names : List String)
   subst e
   exact h1 a hb ha
 
+/-- **`genUniqGroupNames` after the repair of F-C03g**: the new names are free among the device's
+groups, pairwise distinct, as many as the target has groups; a name that was generated (is not a
+name of the target) is not the name of an address of either side. -/
+theorem groupNamesFor_spec (hinj : SuffixInj) (a b : Vsys) (hnd : (b.groups.map (·.name)).Nodup) :
+    (∀ n ∈ groupNamesFor a b, n ∉ a.groups.map (·.name)) ∧ (groupNamesFor a b).Nodup ∧
+    (∀ n ∈ groupNamesFor a b, n ∈ b.groups.map (·.name) ∨
+      (n ∉ a.addrs.map (·.name) ∧ n ∉ b.addrs.map (·.name))) ∧
+    (groupNamesFor a b).length = b.groups.length := by
+  obtain ⟨h1, h2, h3, h4⟩ := uniqNamesFrom_spec hinj (a.groups.map (·.name)) (b.groups.map (·.name))
+    (a.groups.map (·.name) ++ b.groups.map (·.name) ++ (a.addrs.map (·.name) ++ b.addrs.map (·.name)))
+    (fun n h => by simp [h]) (fun n h => by simp [h]) hnd
+  refine ⟨h1, h2, ?_, by unfold groupNamesFor; rw [h4]; simp⟩
+  intro n hn
+  rcases h3 n hn with h | h
+  · exact Or.inl h
+  · right
+    simp only [List.mem_append, not_or] at h
+    exact ⟨h.2.1, h.2.2⟩
+
 end NA.PanOs
